@@ -76,13 +76,15 @@ def bytes_to_blocks(
         _uses=uses(dis.haslocal, len(varnames)),
     )
     found_cellvars = ToArgs(cellvars, _uses=uses(dis.hasfree, len(cellvars)))
+    # If we have a function block and a docstring, the first constant is the docstring,
+    # so we count it as found first.
+    has_docstring = isinstance(block_type, Function) and block_type.docstring is not None
     found_constants = ToArgs(
-        constants, _uses=uses(dis.hasconst, len(constants)), _key_fn=constant_key
+        constants,
+        {0: 0} if has_docstring else {},
+        _uses=uses(dis.hasconst, len(constants)),
+        _key_fn=constant_key,
     )
-
-    # If we have a function block and a docstring, the first constant is the docstring.
-    if isinstance(block_type, Function) and block_type.docstring is not None:
-        found_constants.found_index(0)
 
     for opcode, arg, n_args, offset, next_offset in parsed_bytes:
 
